@@ -28,20 +28,59 @@ type Field struct {
 }
 
 type Out struct {
-	States    map[string][]Rule  `json:"states"`
-	Structs   map[string][]Field `json:"structs"`
-	Lookahead int                `json:"lookahead"`
-	Options   []string           `json:"options"`
+	Unresolved []string           `json:"unresolved,omitempty"`
+	States     map[string][]Rule  `json:"states"`
+	Structs    map[string][]Field `json:"structs"`
+	Lookahead  int                `json:"lookahead"`
+	Options    []string           `json:"options"`
 }
 
+// consts holds the string constants / variables with literal initialisers of
+// the file, so that patterns assembled from named pieces are still extracted.
+var consts = map[string]ast.Expr{}
+
 func str(e ast.Expr) string {
-	if bl, ok := e.(*ast.BasicLit); ok && bl.Kind == token.STRING {
-		s, err := strconv.Unquote(bl.Value)
-		if err == nil {
+	switch x := e.(type) {
+	case *ast.BasicLit:
+		if x.Kind == token.STRING {
+			s, err := strconv.Unquote(x.Value)
+			if err == nil {
+				return s
+			}
+		}
+	case *ast.BinaryExpr:
+		if x.Op == token.ADD {
+			return str(x.X) + str(x.Y)
+		}
+	case *ast.ParenExpr:
+		return str(x.X)
+	case *ast.Ident:
+		if v, ok := consts[x.Name]; ok {
+			delete(consts, x.Name) // guards against cycles
+			s := str(v)
+			consts[x.Name] = v
 			return s
 		}
+		unresolved = append(unresolved, x.Name)
+	default:
+		unresolved = append(unresolved, fmt.Sprintf("%T", e))
 	}
 	return ""
+}
+
+var unresolved []string
+
+func collectConsts(f *ast.File) {
+	ast.Inspect(f, func(n ast.Node) bool {
+		if vs, ok := n.(*ast.ValueSpec); ok {
+			for i, nm := range vs.Names {
+				if i < len(vs.Values) {
+					consts[nm.Name] = vs.Values[i]
+				}
+			}
+		}
+		return true
+	})
 }
 
 func typeString(e ast.Expr) string {
@@ -71,6 +110,7 @@ func main() {
 		fmt.Fprintln(os.Stderr, err)
 		os.Exit(2)
 	}
+	collectConsts(pf)
 	ast.Inspect(pf, func(n ast.Node) bool {
 		switch x := n.(type) {
 		case *ast.CompositeLit:
@@ -155,6 +195,7 @@ func main() {
 			}
 		}
 	}
+	out.Unresolved = unresolved
 	b, _ := json.MarshalIndent(out, "", " ")
 	os.Stdout.Write(b)
 }
